@@ -56,6 +56,39 @@ def classify(decl, res, selfty):
     return None
 
 
+def indirect_targets(f, body, term):
+    """Function items a call through a function pointer can reach, or None if that is not known."""
+    fo = term.get('func')
+    if not fo or fo.get('k') not in ('copy', 'move'):
+        return None
+    root = operand_root(body, fo)
+    if root is None:
+        return None
+    if root[0] == 'const':
+        ops = [root[1]]
+    else:
+        if body.kind == 'Closure' or body.reachable:
+            return None
+        ops = literal_args(f, body.nname, root[1])
+        if not ops:
+            return None
+    names = [strip_generics(o.get('fnres') or o.get('fn') or '') for o in ops]
+    return names if all(names) else None
+
+
+def is_ctor_or_local(f, name):
+    """An enum-variant / tuple-struct constructor of a crate type (total), or a crate function (its own sites are
+    enumerated)."""
+    if name in f.by_name:
+        return True
+    if '::' in name:
+        adt, var = name.rsplit('::', 1)
+        a = f.adts.get(adt)
+        if a is not None and any(v['name'] == var for v in a['variants']):
+            return True
+    return name in f.adts
+
+
 def owner_names(f, body):
     """The functions of the reference tree a site belongs to: closures count with their parent, a helper that does
     not exist on the reference tree with the known functions that call it (each of them must justify the site).
@@ -113,7 +146,16 @@ class Site:
         self.owner = self.owners[0]
 
     @property
+    def in_helper(self):
+        return self.f.is_unknown_helper(self.body) and self.owner != self.body.nname
+
+    @property
     def paths(self):
+        """Paths on which the site is judged: those of its own function - or, for a site inside a helper that does not
+        exist on the reference tree, those of the owning function with the helper inlined (so that the values the
+        helper receives are the caller's)."""
+        if self.in_helper:
+            return self.ctx.paths(self.f, self.f.fn(self.owner), 'none')
         if self._paths is None:
             self._paths = self.ctx.paths(self.f, self.body, 'none')
         return self._paths
@@ -122,10 +164,11 @@ class Site:
         """(path, idx, event) of this site's terminator on every path."""
         out = []
         kinds = ('call',) if self.raw['kind'] in ('call', 'panic') else ('assert',)
+        deep = self.in_helper
         for p in self.paths:
             for i, e in enumerate(p.events):
                 if e['kind'] in kinds and e.get('block') == self.block and e.get('body') == self.body.nname \
-                        and e.get('depth') == 0:
+                        and (deep or e.get('depth') == 0):
                     out.append((p, i, e))
         return out
 
@@ -1078,6 +1121,13 @@ def check(ctx):
                 if raw['res'] in f.by_name:
                     counts['local'] += 1
                     continue
+                if not raw['decl'] and not raw['res']:
+                    # call through a function pointer: decided by what the pointer can be - a parameter of a
+                    # crate-private function for which every call site passes a function item
+                    tgt = indirect_targets(f, b, raw['term'])
+                    if tgt and all(is_ctor_or_local(f, x) for x in tgt):
+                        counts['total'] += 1
+                        continue
                 cls = classify(raw['decl'], raw['res'], raw['term'].get('selfty', ''))
                 if cls is None:
                     unclassified.setdefault(raw['res'] or raw['decl'], []).append(raw)
